@@ -17,6 +17,10 @@ Record quiet (s s' : st) : Prop := {
   q_rel : has_reloader s' = has_reloader s;
   q_shape : shape (recs s') = shape (recs s);
   q_cm : exists l, cm s' = cm s ++ l;
+  (* the source is only read: its files, directories and fault plan are what they were *)
+  q_files : files (src s') = files (src s);
+  q_dirs : dirs (src s') = dirs (src s);
+  q_faults : faults (src s') = faults (src s);
 }.
 
 Lemma quiet_refl s : quiet s s.
@@ -24,13 +28,23 @@ Proof. constructor; try reflexivity. exists []. now rewrite app_nil_r. Qed.
 
 Lemma quiet_trans a b c : quiet a b -> quiet b c -> quiet a c.
 Proof.
-  intros [g1 t1 s1 w1 r1 h1 [l1 c1]] [g2 t2 s2 w2 r2 h2 [l2 c2]]. constructor; try congruence.
+  intros [g1 t1 s1 w1 r1 h1 [l1 c1] f1 d1 x1] [g2 t2 s2 w2 r2 h2 [l2 c2] f2 d2 x2]. constructor; try congruence.
   exists (l1 ++ l2). now rewrite c2, c1, app_assoc.
 Qed.
 
 Ltac q_triv := constructor; cbn; try reflexivity; try (exists []; now rewrite app_nil_r).
 
-Lemma quiet_set_src s x : quiet s (set_src s x). Proof. q_triv. Qed.
+Lemma quiet_set_src s x :
+  files x = files (src s) -> dirs x = dirs (src s) -> faults x = faults (src s) -> quiet s (set_src s x).
+Proof. intros F D X. constructor; cbn; try reflexivity; try assumption. exists []. now rewrite app_nil_r. Qed.
+Lemma src_read_same x id ext :
+  let y := fst (fst (src_read x id ext)) in files y = files x /\ dirs y = dirs x /\ faults y = faults x.
+Proof. unfold src_read, src_tick. cbn. repeat split. Qed.
+Lemma src_read_dir_same x id :
+  let y := fst (fst (src_read_dir x id)) in files y = files x /\ dirs y = dirs x /\ faults y = faults x.
+Proof. unfold src_read_dir, src_tick. cbn. repeat split. Qed.
+Lemma rec_add_src s d : src (rec_add s d) = src s.
+Proof. unfold rec_add. destruct (has_reloader s); [|reflexivity]. destruct (recs s) as [|[l|] r]; reflexivity. Qed.
 Lemma quiet_set_cache s x : quiet s (set_cache s x). Proof. q_triv. Qed.
 Lemma quiet_bump s : quiet s (fst (bump_tok s)). Proof. q_triv. Qed.
 Lemma quiet_rec_add s d : quiet s (rec_add s d).
@@ -42,14 +56,16 @@ Qed.
 
 Lemma quiet_cache_read s id ext : quiet s (fst (fst (cache_read s id ext))).
 Proof.
-  unfold cache_read. destruct (src_read (src (rec_add s (DepFile id ext))) id ext) as [[sr rd] e].
-  cbn [fst]. eapply quiet_trans; [apply quiet_rec_add|apply quiet_set_src].
+  unfold cache_read. pose proof (src_read_same (src (rec_add s (DepFile id ext))) id ext) as (F & D & X).
+  destruct (src_read (src (rec_add s (DepFile id ext))) id ext) as [[sr rd] e].
+  cbn [fst] in *. eapply quiet_trans; [apply quiet_rec_add|now apply quiet_set_src].
 Qed.
 
 Lemma quiet_cache_read_dir s id : quiet s (fst (fst (cache_read_dir s id))).
 Proof.
-  unfold cache_read_dir. destruct (src_read_dir (src (rec_add s (DepDir id))) id) as [[sr rd] e].
-  cbn [fst]. eapply quiet_trans; [apply quiet_rec_add|apply quiet_set_src].
+  unfold cache_read_dir. pose proof (src_read_dir_same (src (rec_add s (DepDir id))) id) as (F & D & X).
+  destruct (src_read_dir (src (rec_add s (DepDir id))) id) as [[sr rd] e].
+  cbn [fst] in *. eapply quiet_trans; [apply quiet_rec_add|now apply quiet_set_src].
 Qed.
 
 Lemma quiet_get_cached_rec s t id : quiet s (fst (get_cached_rec s t id)).
@@ -62,7 +78,7 @@ Proof. unfold cache_insert. destruct (cache_get s k); cbn [fst]; [apply quiet_re
 Lemma quiet_push_pop s o s1 :
   quiet (rec_push s o) s1 -> quiet s (fst (rec_pop s1)).
 Proof.
-  intros [g t st w r h [l c]]. unfold rec_pop. cbn in h.
+  intros [g t st w r h [l c] qf qd qx]. unfold rec_pop. cbn in h.
   destruct (recs s1) as [|x rest] eqn:E; [discriminate|].
   cbn in h. inversion h as [[Hx Hrest]].
   destruct x; cbn [fst]; constructor; cbn; try assumption; exists l; exact c.
@@ -201,7 +217,7 @@ Section Eval.
     destruct (rec_pop s1) as [s2 deps]. cbn [fst] in *.
     destruct r; try exact P.
     (* success: one more cache message *)
-    destruct P as [g tt st w rr h [l c]]. constructor; cbn; try assumption.
+    destruct P as [g tt st w rr h [l c] qf qd qx]. constructor; cbn; try assumption.
     exists (l ++ [MAddAsset (t, id) deps]). now rewrite c, app_assoc.
   Qed.
 
